@@ -454,7 +454,7 @@ fn main() {
     ck.assume("logical projections in harness/c02/src/project.rs capture entries, keys, sizes, flags, tags (not raw page buffers, not derived hashes)");
     ck.assume("builder programs of BLTE, encoding, archive index/group, root, install, download, TVFS are checked against models by C01/C03/C19");
 
-    let cfg = DriverCfg { fixpoint: true, targets: CASC_TARGETS.to_vec(), mutations_per_target: tier.pick(2_000, 200_000), sweep: true };
+    let cfg = DriverCfg { fixpoint: true, targets: CASC_TARGETS.to_vec(), mutations_per_target: std::env::var("VH_C02_MUTATIONS").ok().and_then(|v| v.parse().ok()).unwrap_or(tier.pick(2_000, 200_000)), sweep: true };
     run_iso(&mut ck, "iso-fixpoint", &cfg);
 
     ck.run(
